@@ -125,83 +125,97 @@ func runC10(r *Report, tier string) {
 			r.ob("R10.1", id+":kind", F, p.ret, "only the four RFC 9338 parent kinds are supported").fail("unexpected parent kind " + kind)
 			continue
 		}
-		abbreviated := p.has(Fact{T("param", "0"), true})
-		key := fmt.Sprintf("%s:abbreviated=%v", kind, abbreviated)
-		seen[key] = true
-		o := r.ob("R10.1", fmt.Sprintf("%s:%s:%s", shortFn(F), key, pathID(p)), F, p.ret, "arm yields the RFC 9338 Countersign_structure for this parent kind")
-		// the parent value: every alloc used as parent copy must hold the asserted value
-		tval := &Term{Op: "res", S: "0", Args: []*Term{{Op: "typeassert", S: kind + ",ok", Args: []*Term{target}}}}
-		content := canon(p.eng.expand(res[0], 8))
-		// resolve loads of the local copy of the parent
-		content = resolveParentCopy(P, F, p, content, tval)
-		hT := T("var", "PARENT")
-		els := []*Term{
-			pIface("string", T("const", csContext(abbreviated, arm.other))),
-			pIface("cbor.RawMessage", sb.pDet(pProt(pField(hT, "Headers")))),
-			pIface("cbor.RawMessage", sb.pDet(T("param", "2"))),
-			nil,
-			pIface("[]byte", T("var", "PAYLOAD")),
-		}
-		// nil -> empty normalisation of external: on a single path the diamond is resolved
-		extNil := Fact{tEq(T("param", "3"), tNil()), true}
+		forms := []bool{}
 		switch {
-		case p.has(extNil):
-			els[3] = pIface("[]byte", &Term{Op: "arr", S: "byte"})
-		case p.has(Fact{extNil.Pred, false}):
-			els[3] = pIface("[]byte", T("param", "3"))
+		case p.has(Fact{T("param", "0"), true}):
+			forms = []bool{true}
+		case p.has(Fact{T("param", "0"), false}):
+			forms = []bool{false}
 		default:
-			o.fail("external data is used without the nil test that turns nil into the empty byte string")
-			continue
+			forms = []bool{false, true} // the path does not branch on the form itself
 		}
-		var spec *Term
-		if arm.other {
-			other := pIface("[]cbor.RawMessage", &Term{Op: "arr", S: "cbor.RawMessage", Args: []*Term{sb.pDet(pEnc(pIface("[]byte", T("var", "PSIG"))))}})
-			spec = pEnc(pIface("[]any", &Term{Op: "append", Args: []*Term{pArrAny(els...), pArrAny(other)}}))
-		} else {
-			spec = pEnc(pIface("[]any", pArrAny(els...)))
-		}
-		b, ok := unify(spec, content, bindings{})
-		if !ok {
-			o.fail(firstDiff(spec, content, "content"))
-			continue
-		}
-		why := ""
-		if g, isM := P.isModeLoad(b["ENC"], true); !isM || encoderDeterministic(P, g) != "" {
-			why = "structure is not encoded with the package's deterministic encoder"
-		}
-		// parent identity
-		parent := b["PARENT"]
-		isParent := func(t *Term) bool { return t != nil && (t.eq(tval) || isCopyOf(P, F, t, tval)) }
-		if why == "" && !isParent(parent) {
-			why = "protected bytes are taken from " + parent.String() + ", not from the parent value"
-		}
-		wantPayload := pField(tval, arm.payloadField)
-		if why == "" && !b["PAYLOAD"].eq(projectField(tval, arm.payloadField)) {
-			why = fmt.Sprintf("payload position holds %s, expected %s", b["PAYLOAD"], wantPayload)
-		}
-		if why == "" && arm.other && !b["PSIG"].eq(projectField(tval, "Signature")) {
-			why = "other_fields holds " + b["PSIG"].String() + ", expected the parent's signature"
-		}
-		// refusals
-		for _, rf := range arm.refuse {
-			parts := strings.SplitN(rf, ":", 2)
-			ft := projectField(tval, parts[1])
-			switch parts[0] {
-			case "nonempty":
-				if why == "" && !fs.holdsNonEmpty(ft) {
-					why = "parent with empty " + parts[1] + " is not refused"
-				}
-			case "nonnil":
-				if why == "" && !fs.holdsNonNil(ft) {
-					why = "parent with nil " + parts[1] + " is not refused"
+		for _, abbreviated := range forms {
+			key := fmt.Sprintf("%s:abbreviated=%v", kind, abbreviated)
+			seen[key] = true
+			o := r.ob("R10.1", fmt.Sprintf("%s:%s:%s", shortFn(F), key, pathID(p)), F, p.ret, "arm yields the RFC 9338 Countersign_structure for this parent kind")
+			// the parent value: every alloc used as parent copy must hold the asserted value
+			tval := &Term{Op: "res", S: "0", Args: []*Term{{Op: "typeassert", S: kind + ",ok", Args: []*Term{target}}}}
+			// helpers that pick a constant (e.g. the context string) are evaluated
+			// under this path's knowledge plus the form being examined
+			assume := factSet{}
+			assume.add(Fact{T("param", "0"), abbreviated})
+			content := canon(p.eng.expand(P.evalCalls(p, res[0], assume, 0), 8))
+			// resolve loads of the local copy of the parent
+			content = resolveParentCopy(P, F, p, content, tval)
+			hT := T("var", "PARENT")
+			els := []*Term{
+				pIface("string", T("const", csContext(abbreviated, arm.other))),
+				pIface("cbor.RawMessage", sb.pDet(pProt(pField(hT, "Headers")))),
+				pIface("cbor.RawMessage", sb.pDet(T("param", "2"))),
+				nil,
+				pIface("[]byte", T("var", "PAYLOAD")),
+			}
+			// nil -> empty normalisation of external: on a single path the diamond is resolved
+			extNil := Fact{tEq(T("param", "3"), tNil()), true}
+			switch {
+			case p.has(extNil):
+				els[3] = pIface("[]byte", &Term{Op: "arr", S: "byte"})
+			case p.has(Fact{extNil.Pred, false}):
+				els[3] = pIface("[]byte", T("param", "3"))
+			default:
+				o.fail("external data is used without the nil test that turns nil into the empty byte string")
+				continue
+			}
+			var spec *Term
+			if arm.other {
+				other := pIface("[]cbor.RawMessage", &Term{Op: "arr", S: "cbor.RawMessage", Args: []*Term{sb.pDet(pEnc(pIface("[]byte", T("var", "PSIG"))))}})
+				spec = pEnc(pIface("[]any", &Term{Op: "append", Args: []*Term{pArrAny(els...), pArrAny(other)}}))
+			} else {
+				spec = pEnc(pIface("[]any", pArrAny(els...)))
+			}
+			b, ok := unify(spec, content, bindings{})
+			if !ok {
+				o.fail(firstDiff(spec, content, "content"))
+				continue
+			}
+			why := ""
+			if g, isM := P.isModeLoad(b["ENC"], true); !isM || encoderDeterministic(P, g) != "" {
+				why = "structure is not encoded with the package's deterministic encoder"
+			}
+			// parent identity
+			parent := b["PARENT"]
+			isParent := func(t *Term) bool { return t != nil && (t.eq(tval) || isCopyOf(P, F, t, tval)) }
+			if why == "" && !isParent(parent) {
+				why = "protected bytes are taken from " + parent.String() + ", not from the parent value"
+			}
+			wantPayload := pField(tval, arm.payloadField)
+			if why == "" && !b["PAYLOAD"].eq(projectField(tval, arm.payloadField)) {
+				why = fmt.Sprintf("payload position holds %s, expected %s", b["PAYLOAD"], wantPayload)
+			}
+			if why == "" && arm.other && !b["PSIG"].eq(projectField(tval, "Signature")) {
+				why = "other_fields holds " + b["PSIG"].String() + ", expected the parent's signature"
+			}
+			// refusals
+			for _, rf := range arm.refuse {
+				parts := strings.SplitN(rf, ":", 2)
+				ft := projectField(tval, parts[1])
+				switch parts[0] {
+				case "nonempty":
+					if why == "" && !fs.holdsNonEmpty(ft) {
+						why = "parent with empty " + parts[1] + " is not refused"
+					}
+				case "nonnil":
+					if why == "" && !fs.holdsNonNil(ft) {
+						why = "parent with nil " + parts[1] + " is not refused"
+					}
 				}
 			}
+			o.check(why == "", "matches; context "+csContext(abbreviated, arm.other), why)
+			// R10.4 footprint
+			loads, _ := footprint(content)
+			bad := hasForbiddenLeaf(loads, "Unprotected", "RawUnprotected")
+			r.ob("R10.4", fmt.Sprintf("%s:%s:%s:footprint", shortFn(F), key, pathID(p)), F, p.ret, "the parent's unprotected headers do not contribute").check(bad == "", fmt.Sprintf("%d load leaves, none unprotected", len(loads)), "the countersigned bytes depend on "+bad)
 		}
-		o.check(why == "", "matches; context "+csContext(abbreviated, arm.other), why)
-		// R10.4 footprint
-		loads, _ := footprint(content)
-		bad := hasForbiddenLeaf(loads, "Unprotected", "RawUnprotected")
-		r.ob("R10.4", fmt.Sprintf("%s:%s:%s:footprint", shortFn(F), key, pathID(p)), F, p.ret, "the parent's unprotected headers do not contribute").check(bad == "", fmt.Sprintf("%d load leaves, none unprotected", len(loads)), "the countersigned bytes depend on "+bad)
 	}
 	// all 8 cells present
 	var missing []string
@@ -216,7 +230,7 @@ func runC10(r *Report, tier string) {
 	sort.Strings(missing)
 	r.ob("R10.2", shortFn(F)+":all-cells", F, nil, "all four parent kinds succeed in both forms (8 cells of the table)").check(len(missing) == 0, "8 cells", "no success path for "+strings.Join(missing, ", "))
 	r.ob("R10.1", shortFn(F)+":pointer-arms", F, nil, "four pointer arms").check(nPtr == 4, "4", fmt.Sprintf("%d pointer arms", nPtr))
-	r.floor("R10.1", npaths, 12, "success paths of the builder")
+	r.floorSoft("R10.1", npaths, 12, "success paths of the builder")
 
 	// R10.3
 	n3 := 0
